@@ -35,6 +35,7 @@
 import SF.Gotype.Unfold
 import SF.Proofs.UnfGenericTop
 import SF.Proofs.UnfConsTop
+import SF.Proofs.UnfStructTop
 namespace SF.Props.C14
 open SF SF.Unf
 
@@ -195,3 +196,93 @@ example : TT SF.UnfProofs.Cons.demoT = true ∧
      | .error _ => false) = true := by decide +kernel
 
 end SF.PropsTyped.C14
+
+
+/-! ## targets with STRUCTS (proofs SF/Proofs/UnfStr*.lean, UnfStructTop.lean)
+
+Family `TTS tbl ns t`: everything in `TT` + struct types of the type table (all tags, tag names,
+`inline` / `squash` to any depth, omitted and unexported fields, unknown keys) whose fields are
+again in the family + nested structs, pointers / slices / maps of structs + named types + the
+self-referential menagerie members (`List`, `Tree`, `A` / `B`, `RL`, `RM`: lazy registry
+placeholders).  Excluded: what `SetTarget` refuses (arrays, `map[int]T`), user unfolders and the
+Expander (outside the mirror: op `unf-userval`).  The registry of compiled unfolders survives
+`Reset`: `RegOK` (every entry consistent with its type) holds for a new Unfolder and is preserved
+by `SetTarget` and by every completed document. -/
+
+namespace SF.PropsStruct.C14
+open SF SF.Unf SF.Ops.Unf
+open SF.UnfProofs.Cons (deliver Idle)
+open SF.UnfProofs.Struct (Shaped RegOK TTS)
+
+/-- C14 (no-panic clause) FOR TARGETS WITH STRUCTS, EVERY EVENT SEQUENCE.  `SetTarget(&v)` for a `v`
+of any type of the family (holding any value of that type) on an idle Unfolder with a consistent
+registry, followed by ANY sequence of events — mismatching, unbalanced, truncated, keys outside
+objects, unknown keys with values of any shape, duplicate keys, wrong announced lengths,
+out-of-range numbers, containers where scalars belong, events after the document is complete —:
+`.ok`, or an ERROR, or — only for an element-type code 17 … 255 reaching an `interface{}` position —
+the panic of `makeArrayPtr` / `makeMapPtr`.  Never fuel exhaustion, never a model gap (no stale
+pointer, no value of the wrong layout behind a pointer, no field path that does not resolve, no
+unregistered or placeholder registry entry), no other panic (in particular no nil dereference of
+the struct pointer in `unfolderStruct.OnKey`). -/
+theorem any_events_into_struct (fuel : Nat) (hf : typeFuel ≤ fuel) (tbl : TypeTable) (ns : List String) (t : GoType)
+    (v0 : GoVal) (c c0 : Ctx) (es : List UEv) (hes : ∀ e ∈ es, ¬ e.isKeyRef) (hT : TTS tbl ns t = true)
+    (hidle : Idle c) (hreg : RegOK tbl c) (hv0 : Shaped tbl t v0) (hset : setTarget tbl t v0 c = .ok c0) :
+    (∃ c', run fuel es c0 = .ok () c') ∨
+    (∃ e c', run fuel es c0 = .err e c') ∨
+    (∃ c' e, run fuel es c0 = .panic c' ∧ e ∈ es ∧ e.badStart) :=
+  SF.UnfProofs.Struct.any_events_into_struct fuel hf tbl ns t v0 c c0 es hes hT hidle hreg hv0 hset
+
+/-- … every EXTENDED event sequence (typed arrays / maps, strings and keys by reference —
+`unfolderStruct.OnKeyRef` goes through `bytes2Str`, the map unfolders through the key cache) -/
+theorem any_ext_events_into_struct (fuel : Nat) (hf : typeFuel ≤ fuel) (tbl : TypeTable) (ns : List String)
+    (t : GoType) (v0 : GoVal) (c c0 : Ctx) (xs : List XEv) (hT : TTS tbl ns t = true) (hidle : Idle c)
+    (hreg : RegOK tbl c) (hkc : Symbols.Inv c.keyCache) (hv0 : Shaped tbl t v0)
+    (hset : setTarget tbl t v0 c = .ok c0) :
+    (∃ c', run fuel (deliver xs) c0 = .ok () c') ∨
+    (∃ e c', run fuel (deliver xs) c0 = .err e c') ∨
+    (∃ c' x, run fuel (deliver xs) c0 = .panic c' ∧ x ∈ xs ∧ SF.UnfProofs.Cons.XEv.badStart x) :=
+  SF.UnfProofs.Struct.any_ext_events_into_struct fuel hf tbl ns t v0 c c0 xs hT hidle hreg hkc hv0 hset
+
+/-- C17 / C14 (reuse): whenever the sequence is accepted and the document is complete, ALL six
+stacks are exactly those of the idle Unfolder, every scratch slot has been released and the
+registry is consistent: the Unfolder is idle again, ready for the next `SetTarget` -/
+theorem struct_complete_is_idle (fuel : Nat) (hf : typeFuel ≤ fuel) (tbl : TypeTable) (ns : List String) (t : GoType)
+    (v0 : GoVal) (c c0 c' : Ctx) (es : List UEv) (hes : ∀ e ∈ es, ¬ e.isKeyRef) (hT : TTS tbl ns t = true)
+    (hidle : Idle c) (hreg : RegOK tbl c) (hv0 : Shaped tbl t v0) (hset : setTarget tbl t v0 c = .ok c0)
+    (hrun : run fuel es c0 = .ok () c') (hdone : c'.unfolder.stack = []) :
+    Idle c' ∧ RegOK tbl c' ∧ c'.ptr = c.ptr ∧ c'.value = c.value ∧ c'.key = c.key ∧ c'.idx = c.idx ∧
+      c'.baseType = c.baseType ∧ c'.env = tbl :=
+  SF.UnfProofs.Struct.struct_complete_is_idle fuel hf tbl ns t v0 c c0 c' es hes hT hidle hreg hv0 hset hrun hdone
+
+/-- the hypotheses hold for every Unfolder the API produces between documents -/
+theorem regOK_new (tbl : TypeTable) : RegOK tbl newUnfolder := SF.UnfProofs.Struct.regOK_new tbl
+theorem regOK_reset (tbl : TypeTable) (c : Ctx) (h : RegOK tbl c) : RegOK tbl (reset c) :=
+  SF.UnfProofs.Struct.regOK_reset tbl c h
+
+/-- THE FAMILY contains the struct menagerie of the harness (flat structs, fields of every type of
+`TT`, nested and doubly inlined structs, pointers / slices / maps of structs, named types, the
+self-referential `List`, `Tree`, `A` / `B`, `RL`, `RM`) and excludes what `SetTarget` refuses -/
+example : TTS structTable SF.UnfProofs.Struct.menagerie tS1 = true ∧ TTS structTable SF.UnfProofs.Struct.menagerie tS3 = true ∧
+    TTS structTable SF.UnfProofs.Struct.menagerie tS4 = true ∧ TTS structTable SF.UnfProofs.Struct.menagerie tTree = true ∧
+    TTS structTable SF.UnfProofs.Struct.menagerie tA = true ∧
+    TTS structTable SF.UnfProofs.Struct.menagerie (.slice (.ptr (.ref "S2"))) = true ∧
+    TTS structTable SF.UnfProofs.Struct.menagerie tArr = false := by
+  refine ⟨?_, ?_, ?_, ?_, ?_, ?_, ?_⟩ <;> decide +kernel
+
+/-- ALL hypotheses for `map[string]*UHid` (`type UHid struct { hidden int }`: no exported field, so
+the kernel can run `SetTarget` — the tag parser uses String functions it cannot evaluate), and a
+document with unknown keys of every shape accepted with all six stacks idle afterwards -/
+example : TTS SF.UnfProofs.Struct.tblHid ["Hid"] SF.UnfProofs.Struct.demoS = true ∧ Idle newUnfolder ∧
+    RegOK SF.UnfProofs.Struct.tblHid newUnfolder ∧
+    (match setTarget SF.UnfProofs.Struct.tblHid SF.UnfProofs.Struct.demoS
+        (zero SF.UnfProofs.Struct.tblHid SF.UnfProofs.Struct.demoS) newUnfolder with
+     | .ok c₀ =>
+       (match run typeFuel [.objStart 2 0, .key [0x61], .objStart 2 0, .key [0x7a, 0x7a], .arrStart 2 0,
+                            .scalar (.num .i8 1), .objStart 1 0, .key [0x6b], .scalar .nil, .objEnd, .arrEnd,
+                            .key [0x79], .scalar (.num .i8 2), .objEnd, .key [0x62], .scalar .nil, .objEnd] c₀ with
+        | .ok _ c₁ => c₁.depths == [0, 0, 0, 0, 0, 0]
+        | _ => false)
+     | .error _ => false) = true :=
+  ⟨by decide +kernel, SF.UnfProofs.Cons.idle_new, SF.UnfProofs.Struct.regOK_new _, by decide +kernel⟩
+
+end SF.PropsStruct.C14
